@@ -15,12 +15,15 @@
                                                  ("U","PK","PS","RF","WC","caller")
      [k |-> "ret", c, result, t]                the call returned: "reply" | "fail" | "refused"
      [k |-> "inert", same, t]                   state comparison around mis-addressed traffic
+     [k |-> "down", t]                          the connection's transport was lost (connection_lost ran): nothing
+                                                 can be sent any more, the manager tears the consumers down;
+                                                 calls still in progress spend their remaining attempts silently
    Header: R, T, P, Poll (ms), Eps.                                                        *)
 EXTENDS Integers, Sequences, FiniteSets, TLC, TraceKit
 
 CONSTANTS R, T, P, Poll, Eps
 
-VARIABLES tid, l, queue, marked, headSince, out, calls, order, now, pk, stallAcc, headStall
+VARIABLES tid, l, queue, marked, headSince, out, calls, order, now, pk, stallAcc, headStall, down
 \* stallAcc  : total lateness of loop wake-ups so far (event-loop stalls are logged by the harness)
 \* headStall : stallAcc when the current queue head became the head
 \* pk        : the frame the Packet consumer popped last and has not yet re-queued ([ok, verb] or NoPk)
@@ -28,13 +31,13 @@ VARIABLES tid, l, queue, marked, headSince, out, calls, order, now, pk, stallAcc
 \* out       : the outstanding request [c, verb, seq, t, popped] or NoReq
 \* calls     : function task -> [active, gate, gated, attempts, first, gotreply, lastseq, arrived]
 \* order     : sequence of tasks with a started, gate-passing call that has not returned (arrival order)
-tvars == <<tid, l, queue, marked, headSince, out, calls, order, now, pk, stallAcc, headStall>>
+tvars == <<tid, l, queue, marked, headSince, out, calls, order, now, pk, stallAcc, headStall, down>>
 NoPk == [ok |-> FALSE, verb |-> ""]
 Log == Logs[tid]
 Ev == Log.ev
 E == Ev[l]
 More == l <= Len(Ev)
-Step == l' = l + 1 /\ UNCHANGED tid
+Step == l' = l + 1 /\ UNCHANGED <<tid, down>>
 
 NoReq == [c |-> "", verb |-> "", seq |-> -1, t |-> 0, popped |-> FALSE]
 NoCall == [active |-> FALSE, gate |-> TRUE, gated |-> FALSE, attempts |-> 0, first |-> 0, gotreply |-> FALSE, lastseq |-> -1, stall0 |-> 0]
@@ -57,9 +60,10 @@ Accepts(cls, d, by) ==
 TInit == /\ TKInit /\ tid \in 1..NLogs /\ l = 1
          /\ queue = <<>> /\ marked = FALSE /\ headSince = 0 /\ out = NoReq
          /\ calls = [c \in TaskNames |-> NoCall] /\ order = <<>> /\ now = 0 /\ pk = NoPk /\ stallAcc = 0 /\ headStall = 0
+         /\ down = FALSE
 
 \* no datagram stays at the head for more than a few polls
-HeadOk(t) == queue = <<>> \/ t - headSince <= 3 * Poll + Eps + (stallAcc - headStall)
+HeadOk(t) == down \/ queue = <<>> \/ t - headSince <= 3 * Poll + Eps + (stallAcc - headStall)
 At(t) == t >= now /\ HeadOk(t) /\ now' = t
 
 TCall == /\ More /\ E.k = "call" /\ At(E.t)
@@ -73,6 +77,7 @@ TCall == /\ More /\ E.k = "call" /\ At(E.t)
 Explicit(c) == calls[c].active
 TSend ==
   /\ More /\ E.k = "send" /\ At(E.t)
+  /\ ~down                                       \* nothing is handed to a transport that is gone
   /\ LET c == E.c  cl == calls[c] IN
      \* a gated call whose gate was closed when it started sends nothing
      /\ ~(Explicit(c) /\ cl.gated /\ ~cl.gate)
@@ -122,7 +127,8 @@ TRet == /\ More /\ E.k = "ret" /\ At(E.t)
            /\ cl.active
            /\ (cl.gated /\ ~cl.gate) => (E.result = "refused" /\ cl.attempts = 0)
            /\ E.result = "reply" => cl.gotreply                     \* a reply only if one was delivered to it
-           /\ E.result = "fail" => (~cl.gotreply /\ cl.attempts = R)
+           \* (after the transport was lost the remaining attempts leave no trace on the wire)
+           /\ E.result = "fail" => (~cl.gotreply /\ (cl.attempts = R \/ (down /\ cl.attempts <= R)))
            /\ E.result = "refused" => cl.attempts = 0
            \* finishes within retry-count x (timeout + pause), on the polling grid
            /\ cl.attempts > 0 => E.t - cl.first <= R * (T + P) + R * Poll + Eps + (stallAcc - cl.stall0)
@@ -140,7 +146,10 @@ TInert == /\ More /\ E.k = "inert" /\ At(E.t) /\ E.same
 TStall == /\ More /\ E.k = "stall" /\ E.t >= now /\ now' = E.t /\ stallAcc' = stallAcc + E.d
           /\ UNCHANGED <<queue, marked, headSince, out, calls, order, pk, headStall>> /\ Step
 
-TNext == TCall \/ TSend \/ TPut \/ TMark \/ TPop \/ TRet \/ TInert \/ TStall
+TDown == /\ More /\ E.k = "down" /\ E.t >= now /\ now' = E.t /\ down' = TRUE
+         /\ UNCHANGED <<queue, marked, headSince, out, calls, order, pk, stallAcc, headStall, tid>> /\ l' = l + 1
+
+TNext == TCall \/ TSend \/ TPut \/ TMark \/ TPop \/ TRet \/ TInert \/ TStall \/ TDown
 TSpec == TInit /\ [][TNext]_tvars
 Track == TKTrack(tid, l, l > Len(Ev))
 Report == TKReport
